@@ -1485,6 +1485,12 @@ def check_options(tier, seed, chk, prop, sources=None):
         got = [p for p in executed_paths(model, r) if p.startswith("zoo::ign::")]
         if want != got:
             violation(res, {"check": "ignore-e2e", "flag": flag}, "flag %s: executed %s..., effective ignore demands %s... (differences: %s)" % (flag, got[:3], want[:3], sorted(set(want) ^ set(got))[:5]), r)
+        # the nextest listing resolves ignore through the same levels
+        rl = run_zoo(binary, ["--list", "--format", "terse"] + fargv + ["^zoo::ign::"], {"NEXTEST": "1"}, timeout=120)
+        count_run(res, rl, len(rl.out.splitlines()))
+        listed = sorted(l[: -len(": benchmark")] for l in rl.out.split("\n") if l.endswith(": benchmark"))
+        if listed != want:
+            violation(res, {"check": "ignore-e2e-listing", "flag": flag}, "flag %s: the terse listing shows %s..., effective ignore (nearest level that sets it, other options never masking it) demands %s... (differences: %s)" % (flag, listed[:3], want[:3], sorted(set(want) ^ set(listed))[:5]), rl)
     res["distinct_outcomes"] = len(runner_sources)
     res["samples"] = [{"runner_sources": [x[0] for x in runner_sources]}, {"option_family_benches": len(opt_cases)}]
     res["bounds"] = {"attribute_levels": "benchmark and 3 nested groups: all 16 set/unset patterns for sample_count and for sample_size; threads / counters / zero cases; plus the pairwise feature family (every compatible pair of 21 item features)",
